@@ -545,11 +545,16 @@ func (s *scope) createInstance(descriptor *Descriptor) (any, error) {
 				regKey = reg.Key
 			}
 
-			if reg.Type == descriptor.Type && regKey == descriptor.Key {
+			// The registration made for this field by the same Add call (keyed, grouped or plain)
+			regDescriptor := descriptor.outputForField(reg.Name)
+			if regDescriptor == nil {
+				regDescriptor = s.rootProvider.findDescriptor(reg.Type, regKey)
+			}
+
+			if regDescriptor == descriptor || (reg.Type == descriptor.Type && regKey == descriptor.Key) {
 				primaryService = value
 			}
 
-			regDescriptor := s.rootProvider.findDescriptor(reg.Type, regKey)
 			if regDescriptor == nil {
 				return nil, &ResolutionError{
 					ServiceType: reg.Type,
@@ -559,9 +564,9 @@ func (s *scope) createInstance(descriptor *Descriptor) (any, error) {
 			}
 
 			key := instanceKey{
-				Type:  reg.Type,
-				Key:   regKey,
-				Group: reg.Group,
+				Type:  regDescriptor.Type,
+				Key:   regDescriptor.Key,
+				Group: regDescriptor.Group,
 			}
 
 			s.setInstance(regDescriptor, key, value)
@@ -586,8 +591,12 @@ func (s *scope) createInstance(descriptor *Descriptor) (any, error) {
 
 			value := results[ret.Index].Interface()
 
-			// Find the descriptor for this return type
-			serviceDescriptor := s.rootProvider.findDescriptor(ret.Type, nil)
+			// Find the descriptor registered for this return value by the same Add call (keyed, grouped or plain)
+			serviceDescriptor := descriptor.outputForReturn(ret.Index)
+			if serviceDescriptor == nil {
+				serviceDescriptor = s.rootProvider.findDescriptor(ret.Type, nil)
+			}
+
 			if serviceDescriptor == nil {
 				return nil, &ResolutionError{
 					ServiceType: ret.Type,
@@ -597,7 +606,7 @@ func (s *scope) createInstance(descriptor *Descriptor) (any, error) {
 			}
 
 			key := instanceKey{
-				Type:  ret.Type,
+				Type:  serviceDescriptor.Type,
 				Key:   serviceDescriptor.Key,
 				Group: serviceDescriptor.Group,
 			}
